@@ -58,7 +58,9 @@ QPush(qq, code, cap) == IF Len(qq) < cap THEN Append(qq, code)
                         ELSE Append(SubSeq(qq, 1, cap - 1), QueueOverflow)
 QOverflows(qq, cap)  == Len(qq) >= cap
 
+(* writing the MSS position of the status byte itself has no effect: bit 6 is a function of the rest *)
 WriteReg(r, n, v) ==
+  IF n = "STB" THEN r ELSE
   IF n \in CondRegs THEN [r EXCEPT ![n] = v, ![EventOf(n)] = @ \cup (v \ r[n])]   \* 0->1 latches
   ELSE [r EXCEPT ![n] = v]
 
@@ -67,8 +69,8 @@ NoOut == <<>>
 Effect(r, qq, op, cap) ==
   LET k == op[1] IN
   IF k = "set"          THEN [reg |-> WriteReg(r, op[2], op[3]), q |-> qq, out |-> NoOut]
-  ELSE IF k = "setbits" THEN [reg |-> WriteReg(r, op[2], r[op[2]] \cup op[3]), q |-> qq, out |-> NoOut]
-  ELSE IF k = "clrbits" THEN [reg |-> WriteReg(r, op[2], r[op[2]] \ op[3]), q |-> qq, out |-> NoOut]
+  ELSE IF k = "setbits" THEN [reg |-> IF op[2] = "STB" THEN r ELSE WriteReg(r, op[2], r[op[2]] \cup op[3]), q |-> qq, out |-> NoOut]
+  ELSE IF k = "clrbits" THEN [reg |-> IF op[2] = "STB" THEN r ELSE WriteReg(r, op[2], r[op[2]] \ op[3]), q |-> qq, out |-> NoOut]
   ELSE IF k = "push"    THEN [reg |-> [r EXCEPT !["ESR"] = @ \cup ClassBits(op[2]) \cup (IF QOverflows(qq, cap) THEN {DER} ELSE {})],
                               q |-> QPush(qq, op[2], cap), out |-> NoOut]
   ELSE IF k = "pop"     THEN [reg |-> r, q |-> IF qq = <<>> THEN qq ELSE Tail(qq), out |-> <<IF qq = <<>> THEN 0 ELSE Head(qq)>>]
